@@ -294,10 +294,130 @@ func (e *Evaluator) step(vals map[ssa.Value]Val, v ssa.Value, pred *ssa.BasicBlo
 			return t
 		}
 		return Val{}
+	case *ssa.TypeAssert:
+		return Val{}
 	case *ssa.Call:
 		return e.call(vals, x, env, depth)
+	case *ssa.Lookup:
+		// lookup in a package-level map literal with a known key
+		ld, ok := x.X.(*ssa.UnOp)
+		if !ok {
+			return Val{}
+		}
+		g, ok := ld.X.(*ssa.Global)
+		if !ok {
+			return Val{}
+		}
+		tbl, complete := GlobalMap(g)
+		k := e.get(vals, x.Index)
+		if tbl == nil || !complete || k.K != Const {
+			return Val{}
+		}
+		v, found := tbl[k.C.ExactString()]
+		if x.CommaOk {
+			if !found {
+				v = zeroVal(x.Type().(*types.Tuple).At(0).Type())
+			}
+			vals[tupleKey{x, 0}] = v
+			vals[tupleKey{x, 1}] = B(found)
+			return Val{}
+		}
+		if !found {
+			return zeroVal(x.Type())
+		}
+		return v
 	}
 	return Val{}
+}
+
+func zeroVal(t types.Type) Val {
+	if b, ok := t.Underlying().(*types.Basic); ok {
+		switch {
+		case b.Info()&types.IsInteger != 0:
+			return C(0)
+		case b.Info()&types.IsString != 0:
+			return S("")
+		case b.Info()&types.IsBoolean != 0:
+			return B(false)
+		}
+	}
+	return Val{K: Nil}
+}
+
+var globalMaps = map[*ssa.Global]map[string]Val{}
+var globalMapsComplete = map[*ssa.Global]bool{}
+
+// GlobalMap reads a package-level map literal `var g = map[K]V{const: const, …}`
+// from the package initialiser; complete is false when the map is also
+// modified elsewhere or has non-constant entries.
+func GlobalMap(g *ssa.Global) (map[string]Val, bool) {
+	if t, ok := globalMaps[g]; ok {
+		return t, globalMapsComplete[g]
+	}
+	globalMaps[g] = nil
+	if g.Pkg == nil {
+		return nil, false
+	}
+	init := g.Pkg.Func("init")
+	if init == nil {
+		return nil, false
+	}
+	var mk *ssa.MakeMap
+	for _, b := range init.Blocks {
+		for _, ins := range b.Instrs {
+			if st, ok := ins.(*ssa.Store); ok && st.Addr == ssa.Value(g) {
+				if m, ok := st.Val.(*ssa.MakeMap); ok {
+					mk = m
+				}
+			}
+		}
+	}
+	if mk == nil {
+		return nil, false
+	}
+	tbl := map[string]Val{}
+	complete := true
+	for _, ref := range *mk.Referrers() {
+		switch x := ref.(type) {
+		case *ssa.MapUpdate:
+			k, ok1 := x.Key.(*ssa.Const)
+			v, ok2 := x.Value.(*ssa.Const)
+			if !ok1 || !ok2 || k.Value == nil {
+				complete = false
+				continue
+			}
+			if v.Value == nil {
+				tbl[k.Value.ExactString()] = Val{K: Nil}
+			} else {
+				tbl[k.Value.ExactString()] = Val{K: Const, C: v.Value}
+			}
+		case *ssa.Store:
+		default:
+			complete = false
+		}
+	}
+	// written anywhere else in the package?
+	for _, mem := range g.Pkg.Members {
+		fn, ok := mem.(*ssa.Function)
+		if !ok || fn == init {
+			continue
+		}
+		for _, b := range fn.Blocks {
+			for _, ins := range b.Instrs {
+				if mu, ok := ins.(*ssa.MapUpdate); ok {
+					if ld, ok := mu.Map.(*ssa.UnOp); ok && ld.X == ssa.Value(g) {
+						complete = false
+					}
+				}
+				if st, ok := ins.(*ssa.Store); ok && st.Addr == ssa.Value(g) {
+					complete = false
+				}
+			}
+		}
+	}
+	globalMaps[g] = tbl
+	globalMapsComplete[g] = complete
+	return tbl, complete
 }
 
 // tupleKey addresses a component of a tuple-valued call in the value map.
